@@ -8,6 +8,8 @@ mod clone_output;
 mod compression;
 mod hashsum;
 mod rolling_hash;
+#[cfg(feature = "verif-hooks")]
+pub mod verif_hooks;
 
 pub mod api;
 
